@@ -87,6 +87,46 @@ Theorem c41_legacy_rows_le_count : forall d q, length (orm_exec d q true) <= orm
 Proof. exact legacy_rows_le_count. Qed.
 Print Assumptions c41_legacy_rows_le_count.
 
+(* with LIMIT / OFFSET on the statement: the rows are the slice of the Core rows (and of the meaning), and
+   count() / exists() - computed over the statement including its LIMIT / OFFSET - agree with them *)
+Theorem c41_orm_rows_biject_core_rows_sliced : forall d q off lim,
+  map (map item_val) (orm_exec_sl d q off lim false) = slice off lim (core_exec d (orm_to_core d q)).
+Proof. exact orm_rows_biject_core_rows_sl. Qed.
+Print Assumptions c41_orm_rows_biject_core_rows_sliced.
+
+Theorem c41_orm_rows_have_relational_meaning_sliced_guarded : forall d q off lim, query_ok d q = true ->
+  map (map item_val) (orm_exec_sl d q off lim false) = slice off lim (meaning d q).
+Proof. exact orm_rows_meaning_sl. Qed.
+Print Assumptions c41_orm_rows_have_relational_meaning_sliced_guarded.
+
+Theorem c41_count_exists_agree_sliced : forall d q off lim,
+  orm_count_sl d q off lim = length (orm_exec_sl d q off lim false) /\
+  orm_exists_sl d q off lim = negb (Nat.eqb (length (orm_exec_sl d q off lim false)) 0).
+Proof. exact count_exists_agree_sl. Qed.
+Print Assumptions c41_count_exists_agree_sliced.
+
+Theorem c41_legacy_rows_le_count_sliced : forall d q off lim,
+  length (orm_exec_sl d q off lim true) <= orm_count_sl d q off lim.
+Proof. exact legacy_rows_le_count_sl. Qed.
+Print Assumptions c41_legacy_rows_le_count_sliced.
+
+(* legacy Query.exists(): agrees with the rows except for Query.union(), where it tests a cartesian product *)
+Theorem c41_exists_legacy_union_refuted : exists d q off lim,
+  orm_exec_sl d q off lim true = [] /\ orm_count_sl d q off lim = 0 /\ orm_exists_legacy d q off lim = true.
+Proof. exact exists_legacy_union_refuted. Qed.
+Print Assumptions c41_exists_legacy_union_refuted.
+
+Theorem c41_exists_legacy_guarded : forall d q off lim, is_union q = false ->
+  orm_exists_legacy d q off lim = negb (Nat.eqb (length (orm_exec_sl d q off lim false)) 0).
+Proof. exact exists_legacy_guarded. Qed.
+Print Assumptions c41_exists_legacy_guarded.
+
+(* self-referential any() / has() (expression and keyword form): the criterion speaks about the related row *)
+Theorem c41_self_referential_criterion_meaning : forall d e na n c,
+  lookup e na = grow_c n -> na <> sub_alias -> beval d e (tr_ncrit na c) = neval d n c.
+Proof. exact ncrit_tr. Qed.
+Print Assumptions c41_self_referential_criterion_meaning.
+
 (* ---- non-vacuity ---- *)
 Definition ex_db : db :=
   {| ps := [ {| p_id := 1; p_x := Some 1%Z |}; {| p_id := 2; p_x := None |}; {| p_id := 3; p_x := Some 2%Z |} ];
@@ -124,3 +164,27 @@ Proof. vm_compute; reflexivity. Qed.
 Example c41_ex_legacy_guard :
   distinct_items (orm_exec ex_db (QJoinPC false TgC STrue STrue BothEnt) false) [] = true.
 Proof. vm_compute; reflexivity. Qed.
+
+(* nodes 1 <- 2 <- 3 (data 7, 8, 7), 4 an orphan with data 8: children.any(data=8) holds for node 1 only,
+   parent.has(data=7) for node 2 only (node 3's parent has 8; the outer row's own data is irrelevant) *)
+Definition ex_nodes : db :=
+  {| ps := []; cs := [];
+     ns := [ {| c_id := 1; c_pid := None; c_y := Some 7%Z; c_kind := 0 |};
+             {| c_id := 2; c_pid := Some 1%Z; c_y := Some 8%Z; c_kind := 0 |};
+             {| c_id := 3; c_pid := Some 2%Z; c_y := Some 7%Z; c_kind := 0 |};
+             {| c_id := 4; c_pid := None; c_y := Some 8%Z; c_kind := 0 |} ] |}.
+Example c41_ex_self_referential :
+  core_exec ex_nodes (orm_to_core ex_nodes (QN (NAny (SCmp OEq 8)))) = [[Some 1%Z]] /\
+  core_exec ex_nodes (orm_to_core ex_nodes (QN (NHas (SCmp OEq 7)))) = [[Some 2%Z]] /\
+  meaning ex_nodes (QN (NNot (NAny (SCmp OEq 8)))) = [[Some 2]; [Some 3]; [Some 4]]%Z.
+Proof. repeat split; vm_compute; reflexivity. Qed.
+
+(* the single-table subclass twice: only Sub rows on both sides (5 and 6 have different parents; 9 has none) *)
+Example c41_ex_siblings :
+  core_exec ex_db (orm_to_core ex_db (QSibs false STrue)) = [[Some 5; Some 5]; [Some 6; Some 6]]%Z.
+Proof. vm_compute; reflexivity. Qed.
+
+Example c41_ex_slice :
+  orm_count_sl ex_db (QJoinPC false TgC STrue STrue BothEnt) 2 None = 1 /\
+  orm_exec_sl ex_db (QJoinPC false TgC STrue STrue BothEnt) 1 (Some 1) false = [ [IEnt 0 1; IEnt 1 5] ]%Z.
+Proof. split; vm_compute; reflexivity. Qed.
